@@ -31,7 +31,7 @@ impl ClaimCfg {
 
 const PLAIN_NAMES: &[&str] = &[
     "a", "b", "c", "ab", "abc", "a1", "a10", "b2", "name", "address", "street", "id", "x", "y", "z", "k", "k0", "k1",
-    "given_name", "nationalities", "age", "A", "Ab",
+    "given_name", "nationalities", "age", "A", "Ab", "$", "näme", "a/b", "~0",
 ];
 const HAZARD_NAMES: &[&str] = &[
     "a b", " a", "a ", "q\"uote", "back\\slash", "tab\t", "nl\n", "sl/ash", "til~de", "$", "co,mma", "co:lon", "\u{1}",
@@ -159,14 +159,22 @@ pub fn leaf_strategy(cfg: ClaimCfg) -> BoxedStrategy<Value> {
 
 /// any JSON value (no reserved names), depth <= `depth`
 pub fn value_strategy(cfg: ClaimCfg, depth: u32) -> BoxedStrategy<Value> {
+    // container sizes around typical capacity / batching thresholds
+    let edge_len = || select(&[15usize, 16, 17, 31, 32, 33, 48, 64, 65][..]);
+    let small = || prop_oneof![Just(Value::Null), any::<bool>().prop_map(Value::Bool), (0u64..1000).prop_map(Value::from), select(&["", "x", "é", "𐀀"][..]).prop_map(|s| Value::String(s.into()))];
     let leaf = prop_oneof![
-        12 => leaf_strategy(cfg),
-        1 => Just(Value::Array(vec![])),
-        1 => Just(Value::Object(Map::new())),
+        240 => leaf_strategy(cfg),
+        20 => Just(Value::Array(vec![])),
+        20 => Just(Value::Object(Map::new())),
         // an occasional long array of scalars: indices [10], [11] share a prefix with [1]
-        1 => vec(leaf_strategy(cfg), 11..14).prop_map(Value::Array),
+        20 => vec(leaf_strategy(cfg), 11..14).prop_map(Value::Array),
         // an occasional wide object (more members than any fixture has)
-        1 => vec(leaf_strategy(cfg), 9..22).prop_map(|vs| Value::Object(vs.into_iter().enumerate().map(|(i, v)| (format!("m{}", i), v)).collect())),
+        20 => vec(leaf_strategy(cfg), 9..22).prop_map(|vs| Value::Object(vs.into_iter().enumerate().map(|(i, v)| (format!("m{}", i), v)).collect())),
+        // rare: containers whose size sits on / next to a power-of-two boundary, and very large ones
+        3 => (edge_len(), small()).prop_map(|(n, v)| Value::Array(vec![v; n])),
+        3 => (edge_len(), small()).prop_map(|(n, v)| Value::Object((0..n).map(|i| (format!("w{}", i), v.clone())).collect())),
+        1 => (100usize..300, small()).prop_map(|(n, v)| Value::Array((0..n).map(|i| if i % 7 == 0 { Value::from(i as u64) } else { v.clone() }).collect())),
+        1 => (66usize..140).prop_map(|n| Value::Array((0..n).map(|i| { let mut m = Map::new(); m.insert("k".into(), Value::from(i as u64)); Value::Object(m) }).collect())),
     ];
     leaf.prop_recursive(depth, 48, 5, move |inner| {
         prop_oneof![
